@@ -253,8 +253,23 @@ def agg(run, p):
             lens = [n for (qn, ctx) in seen for n in p.own_nodes(p.funcs[qn]) if isinstance(n, ast.Constant) and isinstance(n.value, str) and 'LENGTH(' in n.value]
             run.ob('C07-AGG', '%s::%s::length' % (f.rel, f.short), bool(lens), '%s measures LENGTH(column)' % name, fn=f, nontrivial=False)
     f = sh.methods.get('get_database_nunique')
-    src = ' '.join(n.value for n in ast.walk(f.node) if isinstance(n, ast.Constant) and isinstance(n.value, str))
-    run.ob('C07-AGG', '%s::%s' % (f.rel, f.short), 'COUNT(DISTINCT' in src and 'IS NOT NULL' in src, 'nunique is COUNT(DISTINCT col) over non-null rows', fn=f)
+    # the statement it sends, recorded by evaluation (however the text is put together)
+    from ..pyeval import Interp, Obj, Unsupported, Raised
+    sent = []
+
+    def execute_scalar(sql, *a, **k):
+        sent.append(sql)
+        return 3
+    execute_scalar._pyeval_model = True
+    o = Obj(sh)
+    o.attrs.update(dbtype='sqlite', execute_scalar=execute_scalar)
+    try:
+        Interp(p).call(f, ['t', 'c'], selfobj=o)
+    except (Unsupported, Raised) as e:
+        raise AnalysisError('get_database_nunique is not evaluable: %s' % e)
+    sql = ' '.join(' '.join(sent).split()).upper()
+    run.ob('C07-AGG', '%s::%s' % (f.rel, f.short), len(sent) == 1 and 'COUNT(DISTINCT' in sql.replace('COUNT (', 'COUNT(') and 'IS NOT NULL' in sql
+           and ' LIMIT ' not in sql, 'nunique is COUNT(DISTINCT col) over non-null rows: %s' % (sent[:1] or 'no statement sent'), fn=f)
     # no LIMIT / TOP / sampling in any statistic query
     for name, f in sorted(sh.methods.items()):
         if not name.startswith('get_database_'):
